@@ -198,11 +198,8 @@ def run(ctx):
         what = ("%d single-precision canonical samples equal exactly 1.0f: GenerateCanonical32<float> returns "
                 "2^-32 * float(word) and float(word) rounds up to 2^32 for the 128 words >= 0xffffff80 "
                 "(named deviation CanonFOne; double precision is unaffected)" % devs)
-        if ctx.match_known(FLOAT_TAGS) is not None:
-            ctx.violation(what, tags=FLOAT_TAGS, files=[])
-        else:
-            # not (yet) registered in known_findings.json: counted and reported, not hidden
-            vlib.log("NOTE unregistered named deviation CanonFOne: " + what)
+        # listed in known_findings.json -> KNOWN-FINDING; otherwise a VIOLATION
+        ctx.violation(what, tags=FLOAT_TAGS, files=[])
 
     ctx.coverage.update({
         "states": mc.distinct, "transitions": mc.generated,
